@@ -211,6 +211,29 @@ def convert(ev):
     raise Unmodelled('access %r' % (lab,))
 
 
+_VARIANT = {}
+
+
+def variant_once():
+    """Which is_running the tree under test has: one read of _active_agent (repaired) or two
+    (pinned).  Probed on the real code: a single-threaded call with an active agent."""
+    if 'once' not in _VARIANT:
+        from bardolph.lib import job_control
+        s = sched.Scheduler([])
+        reads = []
+        with s.patched(job_control), s.shared_attrs(job_control.JobControl, ['_active_agent']):
+            jc = job_control.JobControl()
+            jc.__dict__['_active_agent'] = job_control.Agent(None, None, 'x')
+
+            def probe():
+                jc.is_running('y')
+            s.add_client(probe)
+            res = s.run()
+            reads = [e for e in res.events if e[1] == 'read _active_agent']
+        _VARIANT['once'] = len(reads) == 1
+    return _VARIANT['once']
+
+
 # --------------------------------------------------------------------------- printing Coq terms
 
 def cz(n):
@@ -272,8 +295,8 @@ def coq_scenario(scn):
 
 def coq_case(scn, choices, out):
     b, c = coq_scenario(scn)
-    return ('{| c_bodies := %s; c_clients := %s; c_choices := %s; c_log := %s; c_finished := %s; c_has_jobs := %s |}'
-            % (b, c, coq_list([cz(x) for x in choices]), coq_entries(out['entries']),
+    return ('{| c_variant := %s; c_bodies := %s; c_clients := %s; c_choices := %s; c_log := %s; c_finished := %s; c_has_jobs := %s |}'
+            % ('true' if variant_once() else 'false', b, c, coq_list([cz(x) for x in choices]), coq_entries(out['entries']),
                'true' if out['finished'] else 'false', 'true' if out['has_jobs'] else 'false'))
 
 
@@ -767,6 +790,7 @@ def run(ctx):
     ctx.extra['model_branches_new'] = sorted(set(edges) - set(KNOWN_EDGES))
     ctx.extra['runs'] = {'compared_in_coq': len(cases), 'finished': stats['finished'], 'steps': stats['steps'],
                          'explored_steps': stats.get('explored_steps', 0)}
+    ctx.extra['is_running_variant'] = 'one read (repaired)' if variant_once() else 'two reads (pinned)'
     ctx.extra['observations'] = stats['observations']
     ctx.extra['observation_examples'] = stats['observation_example']
 
